@@ -96,7 +96,7 @@ static void run_sym(vh::Trace& tr, int tier) {
     sym_config(tr, D(32, 5, 3, 4, 1, 0, 0, 7), G(15, 15, 9, 2.F, 2.F, 2, 0), true, id);
     sym_config(tr, D(20, 6, 5, 5, 1, 0, 0, 5), G(11, 11, 11, 3.F, 3.F, 2, 1), true, id);      // span 5
     sym_config(tr, D(16, 3, 1, 2, 1, 3, 9, 5), G(9, 9, 5, 3.F, 3.F, 2, 0), true, id);          // TOF mashing 3 of 9
-    sym_config(tr, D(24, 3, 3, 2, 3, 0, 0, 5), G(9, 9, 10, 3.F, 3.F, 4, 0), true, id);         // mash 3, span 3 (untruncated 0..1? see Geom)
+    sym_config(tr, D(24, 4, 3, 3, 3, 0, 0, 5), G(9, 9, 14, 3.F, 3.F, 4, 0), true, id);         // mash 3, span 3 (last segment 2..3), quarter-ring planes
     sym_config(tr, D(40, 2, 1, 1, 1, 0, 0, 11), G(25, 25, 3, 2.F, 2.F, 2, 0), true, id);
   }
 }
@@ -297,7 +297,7 @@ static void run_rows(vh::Trace& tr, int tier, int only, vh::Rng& rng) {
     maybe_open(); rec.full_pass(f, sw_from_bits(31), true, true, 1);
     maybe_open(); rec.full_pass(f, sw_from_bits(31), true, false, f.geoms.size() > 1 ? 2 : 1);
     // every requested switch setting x cache disabled / basic bins only / everything
-    const int len = tier > 0 ? 160 : 80;
+    const int len = tier > 0 ? 110 : 80;
     for (int mask = 0; mask < 32; ++mask)
       for (int mode = 0; mode < 3; ++mode) {
         maybe_open();
